@@ -1013,7 +1013,19 @@ int main(int argc, char** argv) {
         verif::ReplaySchedule rp; rp.tids = unrle(argv[4]);
         r = verif::run(bodies, rp, MAX_STEPS);
     } else return 2;
-    if (r.deadlock && r.steps >= MAX_STEPS) viol("LIVELOCK the run did not finish within " + std::to_string(MAX_STEPS) + " scheduling points");
+    if (r.deadlock && r.steps >= MAX_STEPS) {
+        std::string where;
+        for (size_t i = 0; i < P.arenas.size(); ++i) if (A_[i].ta) {
+            arena* a = A_[i].ta->my_arena.load(std::memory_order_relaxed);
+            if (!a) continue;
+            where += " arena " + std::to_string(i) + ": fifo population=" + std::to_string((unsigned long)a->my_fifo_task_stream.population.load()) + " lanes";
+            for (unsigned l = 0; l < a->my_fifo_task_stream.N; ++l) where += " " + std::to_string(a->my_fifo_task_stream.lanes[l].my_queue.size());
+            where += " refs=" + std::to_string((unsigned long)a->my_references.load()) + " allotted=" + std::to_string((int)a->my_num_workers_allotted.load()) +
+                     " pool_state=" + std::to_string((int)a->my_pool_state.test()) + " slots:";
+            for (unsigned k = 0; k < a->my_num_slots; ++k) where += " [" + std::to_string((int)a->my_slots[k].my_is_occupied.load()) + " h" + std::to_string((long)a->my_slots[k].head.load()) + " t" + std::to_string((long)a->my_slots[k].tail.load()) + "]";
+        }
+        viol("LIVELOCK the run did not finish within " + std::to_string(MAX_STEPS) + " scheduling points (pending enqueued tasks " + std::to_string(g_pending) + ";" + where + ")");
+    }
     else if (r.deadlock) {
         std::ostringstream o; o << "DEADLOCK every live thread is parked:";
         for (int t : r.parked) o << " " << t;
